@@ -35,7 +35,11 @@ func Ob_C02C15_GetNextSuperNodes() {
 // ignore list, and are at most as many as requested.
 func Ob_C15_RandomSP() {
 	w := NewWorld()
-	sym.SetEnumBound("node", nodetypes.NodeKeyPrefix, 3)
+	if sym.Tier() == "quick" {
+		sym.SetEnumBound("node", nodetypes.NodeKeyPrefix, 2)
+	} else {
+		sym.SetEnumBound("node", nodetypes.NodeKeyPrefix, 3)
+	}
 	// the round-robin cursor is in range (its out-of-range behaviour is Ob_C02C15_GetNextSuperNodes' subject)
 	sym.Assume(len(w.Ctx.BlockHeader().AppHash) >= 0)
 	count := sym.Int("count")
